@@ -170,7 +170,7 @@ pub fn list_shapes() -> Vec<String> {
 
 pub fn build(tier: Tier) -> Check<'static> {
     let mut c = Check::new("C17", tier, "6/C17");
-    c.rule = "inputs (vendored seeds, quick: < 300 bytes; the default sentence of every reference-grammar rule; keyword-region programs; left-recursive list shapes of 1..8 elements) x memo policies (FIFO capacities incl. the shipped 1024, periodic flush, forced misses - chosen per thread through the verif hook); acceptance and the positioned tree skeleton must equal the run with an unbounded table; non-trivial = runs in which eviction / flush / forced miss actually happened (hook counters)".into();
+    c.rule = "inputs (vendored seeds, quick: < 300 bytes; the default sentence of every reference-grammar rule; keyword-region programs, also with the region opened in the middle of a module / interface body; left-recursive list shapes of 1..8 elements) x memo policies (FIFO capacities incl. the shipped 1024, periodic flush, forced misses - chosen per thread through the verif hook); acceptance and the positioned tree skeleton must equal the run with an unbounded table; non-trivial = runs in which eviction / flush / forced miss actually happened (hook counters)".into();
     c.assumptions = vec![
         "the verif wrapper around nom-packrat's table delegates to the real PackratStorage and only adds policies and counters".into(),
         "known findings are listed per (input hash, policy); any other pair is a violation".into(),
@@ -202,6 +202,40 @@ pub fn build(tier: Tier) -> Check<'static> {
         let sp = kwprogs::programs(0, tier.pick(2, 3));
         c.parts.push(Part::new("keyword-regions", sp.len(), "keyword-region programs (begin_keywords has a side effect that a memo hit skips)", move |i, acc| {
             one(acc, &kwprogs::render(&sp.get(i)), false, &pol, "keyword-region program");
+        }));
+    }
+    {
+        // regions opened INSIDE a construct: the text before the directive is parsed (and memoised)
+        // under one keyword set, the directive is walked over once per alternative the parser tries
+        // (both tiers use the four quick policies here; thorough adds bodies long enough for capacity 1024)
+        let pol = Arc::new(policies(Tier::Quick));
+        let heads: Vec<&'static str> = vec!["module m;\n", "module m(a, b, y);\n", "interface m;\n"];
+        let before: Vec<&'static str> = vec!["logic l0;\n", "parameter logic [3:0] P = 1;\n", "localparam bit [1:0] S = 0;\n", "wire w0;\n"];
+        let after: Vec<&'static str> = vec!["input a;\ninput b;\noutput y;\n", "wire w1;\n", "logic l1;\n", "reg logic;\n", "assign w0 = 1;\n"];
+        let sp = crate::core::space::Space::of(heads)
+            .product(crate::core::space::Space::of(before).seq_range(0, tier.pick(1, 2)))
+            .product(crate::core::space::Space::of(kwprogs::VERSIONS.to_vec()))
+            .product(crate::core::space::Space::of(after).seq_range(1, 2))
+            .product(crate::core::space::Space::of(tier.pick(vec![0usize, 40], vec![0usize, 40, 150])))
+            .product(crate::core::space::Space::of(vec![false, true]));
+        c.parts.push(Part::new("keyword-regions-inside", sp.len(), "3 module / interface headers x 0-1 (thorough 0-2) declarations using SystemVerilog type keywords x `begin_keywords of 3 versions in the middle of the body x 1-2 items after it x 0 / 40 (thorough: / 150) filler declarations x region closed or left open", move |i, acc| {
+            let (((((head, before), ver), after), fill), close) = sp.get(i);
+            let mut s = String::from(head);
+            for b in &before {
+                s.push_str(b);
+            }
+            for k in 0..fill {
+                s.push_str(&format!("wire [7:0] n{};\n", k));
+            }
+            s.push_str(&format!("`begin_keywords \"{}\"\n", ver));
+            for a in &after {
+                s.push_str(a);
+            }
+            if close {
+                s.push_str("`end_keywords\n");
+            }
+            s.push_str(if head.starts_with("interface") { "endinterface\n" } else { "endmodule\n" });
+            one(acc, &s, false, &pol, "keyword region opened inside a construct");
         }));
     }
     {
